@@ -406,4 +406,35 @@ theorem world_liquidate_spec {c : LiqCtx} {amount : Int} {o : LiqOutW} (h : Worl
 
 end whole_instructions
 
+section whole_instructions
+open Mfi Mfi.World Mfi.Gen Mfi.Risk
+
+/-- the amounts the whole-instruction model computes (`World.liqAmountsLate`, the handler's own order: the insurance fee is
+    converted to whole tokens only after the third balance move) are the amounts of `Risk.liquidationAmounts`, about which
+    `amounts_spec` / `amount_bounds` speak: same liquidator side, same liquidatee relief, same fee, the whole part to the
+    insurance vault and the fraction to the outstanding insurance fees -/
+theorem world_liquidation_amounts_are_the_amounts {amount ap lp dA dL lq fin fee w : Int}
+    (h : liqAmountsLate amount ap lp dA dL = .ok (lq, fin, fee)) (hw : Fx.toU64? fee = some w) :
+    liquidationAmounts amount ap lp dA dL = .ok { liquidator := lq, final := fin, fee := fee, feeWhole := w, feeFrac := Fx.frac fee } := by
+  unfold liqAmountsLate at h
+  unfold liquidationAmounts
+  obtain ⟨fees, h1, h⟩ := Res.bind_ok h
+  obtain ⟨fd, h2, h⟩ := Res.bind_ok h
+  obtain ⟨ld, h3, h⟩ := Res.bind_ok h
+  obtain ⟨v1, h4, h⟩ := Res.bind_ok h
+  obtain ⟨l1, h5, h⟩ := Res.bind_ok h
+  obtain ⟨v2, h6, h⟩ := Res.bind_ok h
+  obtain ⟨f1, h7, h⟩ := Res.bind_ok h
+  obtain ⟨fe, h8, h⟩ := Res.bind_ok h
+  split at h
+  · cases h
+  · rename_i hneg
+    injection h with h
+    injection h with e1 e2
+    injection e2 with e2 e3
+    subst e1; subst e2; subst e3
+    simp only [h1, h2, h3, h4, h5, h6, h7, h8, bind, Except.bind, hneg, if_false, hw]
+
+end whole_instructions
+
 end Mfi.Props.C05
